@@ -43,3 +43,7 @@ claim("C02", "DESIGN.md 3/C02",
       "for every missing-aware test x parameter set (every climatology member shape, one- and two-member lists): every series of length 0..4 (thorough 5) over {v1,v2,missing} with NaN/None spellings x the full product of presence masks of depth (2^n) or lon/lat (4^n); per position: missing observation -> MISSING (UNKNOWN only where the test is undefined), present observation MISSING only if a needed input is missing",
       "does not judge which of GOOD/SUSPECT/FAIL; 'undefined irrespective of the value' is decided by the scalar reference",
       TECH_TREE)
+claim("C15", "DESIGN.md 3/C15",
+      "for each of the 11 tests every logical series of length 0..3 (thorough 4) over {1,3,missing} is run with canonical carriers and with each of 17 data/aux carriers and 17 time carriers substituted one input at a time (and every data x time carrier pair for length<=2, spans as tuples); flags must equal the canonical ones",
+      "differential oracle (no reference model); integer carriers only without missing values; epoch seconds inside a pandas Series not judged",
+      TECH_TREE)
